@@ -104,6 +104,20 @@ def gen(rng, tier):
         yield Case("rnd", ["recombine"] + base + [rng.choice(["1/2", "1/4", "1/10"]), rng.choice(FR), rng.randint(0, 1)], True, "recombine-large")
         yield Case("rnd", ["mutate"] + base + [rng.choice(FR)], True, "mutate-large")
         yield Case("rnd", ["addgaps"] + base + [rng.choice(FR), rng.choice(FR)], True, "addgaps-large")
+    # very wide alignments (beyond 4096 columns: block / buffer sizes): the column operations replay exactly and keep
+    # their promises
+    for _ in range(1 if tier == "quick" else 6):
+        # (the Lean model works on lists: a 4200-column case costs seconds, so few of them)
+        n, L = rng.choice([2, 3]), rng.choice([4200, 4300, 4500])
+        rows = [("s%d" % i, "".join(rng.choice(NT + "-") for _ in range(L))) for i in range(n)]
+        seed = rng.randint(0, 2 ** 31 - 1)
+        base = [seed, 1, rows_str(rows)]
+        yield Case("rnd", ["swap"] + base + ["1", rng.choice(["0", "1/100"])], True, "swap-very-wide")
+        yield Case("rnd", ["recombine"] + base + ["1/2", "99/100", rng.randint(0, 1)], True, "recombine-very-wide")
+        if tier != "quick":
+            yield Case("rnd", ["shufflesites"] + base + ["1", "0", 0], True, "shufflesites-very-wide")
+            yield Case("rnd", ["subalign"] + base + [L - 1, 1], True, "subalign-very-wide")
+            yield Case("rnd", ["bootstrap"] + base + ["1"], True, "bootstrap-very-wide")
     # small samples of tall alignments, many runs from one seed: every run must return distinct original rows
     for _ in range(4 if tier == "quick" else 40):
         n = rng.choice([32, 48, 64])
